@@ -98,17 +98,20 @@ MonGs56Add(e) ==
        <<o.has, "the added GTID is not contained in the result">>,
        <<o.flavor = "MySQL56", "flavor">>})
 
-RECURSIVE HistFails(_, _, _, _, _)
-HistFails(e, rep, ops, obs, i) ==
+RECURSIVE HistFails(_, _, _, _)
+\* reps: the abstract value of every set obtained so far (index 1 = the initial set); op k adds to reps[recv + 1]
+HistFails(e, reps, ops, obs) ==
   IF ops = <<>> THEN {}
   ELSE LET g == Head(ops)  o == Head(obs)
-           x == G!NormalAdd(rep, g.sid, g.n)
+           x == G!NormalAdd(reps[g.recv + 1], g.sid, g.n)
+           reps2 == Append(reps, x)
        IN Chk("C18.history", e, {
-            <<o.text = Set56Text(x), "AddGTID history: result is not the union in canonical form">>,
-            <<o.recvSame /\ o.recvText = Set56Text(rep), "AddGTID history: the receiver was altered">>,
+            <<Len(o.texts) = Len(reps2) /\ o.texts[Len(reps2)] = Set56Text(x), "AddGTID history: result is not the union in canonical form">>,
+            <<Len(o.texts) = Len(reps2) /\ \A i \in 1..Len(reps) : o.texts[i] = Set56Text(reps[i]),
+              "AddGTID history: a set that already existed (the receiver or an earlier result) was altered">>,
             <<o.has, "AddGTID history: the added GTID is not contained in the result">>})
-          \cup HistFails(e, x, Tail(ops), Tail(obs), i + 1)
-MonGs56History(e) == HistFails(e, Strip(e.rep), e.ops, e.obs, 1)
+          \cup HistFails(e, reps2, Tail(ops), Tail(obs))
+MonGs56History(e) == HistFails(e, <<Strip(e.rep)>>, e.ops, e.obs)
 
 MonGs56Pair(e) ==
   LET a == Strip(e.a)  b == Strip(e.b) IN
@@ -169,6 +172,7 @@ MonGsMaria(e) ==
   LET o == e.obs IN
   Chk("C19.mariaset", e, {
     <<WellFormedMaria(o.text) /\ MariaEntries(o.text) = AsSet(e.entries) /\ Len(Split(o.text, 44)) = Len(e.entries), "String() of a MariaDB set">>,
+    <<o.unchangedByString, "printing a MariaDB set changed the set">>,
     <<~o.parseErr /\ o.text2 = o.text /\ o.eq, "parsing the printed MariaDB set does not return an equal set">>})
   \cup MariaHist(e, e.entries, o.text, e.ops, e.hist)
 
@@ -190,20 +194,21 @@ ByteLens(cells) == [i \in 1..Len(ValCells(cells)) |-> Len(ValCells(cells)[i].byt
 
 MonRows(e) ==
   LET o == e.obs
+      P == IF "C13" \in Props /\ "C09" \notin Props THEN "C13" ELSE "C09"
       hasB == e.kind # "write"
       hasA == e.kind # "delete"
-  IN IF o.panic THEN {F("C09.panic", e, "Rows() panicked on a well-formed event")}
-     ELSE IF o.err THEN {F("C09.error", e, "Rows() returned an error for a well-formed event")}
-     ELSE Chk("C09.rows", e, {
+  IN IF o.panic THEN {F(P \o ".panic", e, "Rows() panicked on a well-formed event")}
+     ELSE IF o.err THEN {F(P \o ".error", e, "Rows() returned an error for a well-formed event")}
+     ELSE Chk(P \o ".rows", e, {
             <<o.nrows = Len(e.rows), "row count differs from the encoded row count">>,
             <<o.tid = e.tid, "table id of the rows event">>,
             <<(hasB => o.presentB = e.pb) /\ (hasA => o.presentA = e.pa), "columns-present bitmaps">>}) \cup
           UNION {
             LET r == e.rows[i]  x == o.rows[i] IN
-            Chk("C09.image", e, {
+            Chk(P \o ".image", e, {
               <<hasB => (x.id = ImageData(r.b) /\ x.nullsB = NullBits(r.b)), "before image / NULL bitmap differs from the encoded image">>,
               <<hasA => (x.data = ImageData(r.a) /\ x.nullsA = NullBits(r.a)), "after image / NULL bitmap differs from the encoded image">>}) \cup
-            Chk("C09.consume", e, {
+            Chk(P \o ".consume", e, {
               <<hasB => (~x.walkB.err /\ ~x.walkB.panic /\ x.walkB.lens = ByteLens(r.b) /\ x.walkB.total = Len(ImageData(r.b))
                          /\ SpecLens(e.cols, r.b, ImageData(r.b), 1) = ByteLens(r.b)),
                 "decoding the before image column by column does not consume it exactly">>,
@@ -391,6 +396,9 @@ Mon(e) ==
     [] e.fn = "cell" -> UNION {MonCell(e, p) : p \in Props} \cup
                         (IF ZoneOK(e) THEN {} ELSE {F("HARNESS.zone", e, "zone offset logged by the harness is not the zone's")})
     [] e.fn \in {"intbatch", "datebatch", "timebatch"} -> UNION {MonBatch(e, p) : p \in Props}
+    [] e.fn = "cellpair" ->
+         \* both values are judged AFTER both calls: a later call must not change an earlier result
+         UNION {MonCell(e, p) \cup MonCell([e EXCEPT !.raw = e.raw2, !.tz = e.tz2, !.obs = e.obs2], p) : p \in Props}
     [] OTHER -> {}
 
 TInit == l = 1 /\ nviol = 0 /\ ncase = 0 /\ tn = {}
